@@ -75,6 +75,8 @@ def lift(src: str):
                 yield pre + src + post
     yield src.replace("\n", "\r\n")
     yield src.rstrip("\n")
+    for tail in ("   ", "\f", "\t", "  # c", "\\"):  # the error is reported at the end of the input, on a line without newline
+        yield src.rstrip("\n") + "\n" + tail
 
 
 GATED = [
@@ -98,6 +100,9 @@ def cases(unit: tuple):
             for pre in LIFT_PRE:
                 for post in LIFT_POST:
                     yield {"src": pre + snip + post, "mode": "exec", "file": True}
+            for tail in ("   ", "\f", "\t", "  # c", "\\", "    \n   "):
+                yield {"src": snip + tail, "mode": "exec", "file": True}
+                yield {"src": snip.rstrip("\n") + tail, "mode": "exec", "file": True}
             spots = [m for m in _IDENT.finditer(snip) if not keyword.iskeyword(m.group()) and m.group() not in keyword.softkwlist]
             for m in spots[: unit[3]]:
                 for shape in SHAPES:
